@@ -378,7 +378,7 @@ def check(P, R):
     capped = False
     cap_node = None
     for n in g.nodes:
-        if n.kind == 'test' and 'buff_size' in names_loaded(n.ast) and any(
+        if n.kind == 'test' and 'buff_size' in names_loaded(T.expand(f, n.ast, n)) and any(
                 T.loops_of(c) and T._inside(n.ast, T.loops_of(c)[0].body) for c in size_reads):
             for lab in ('true', 'false'):
                 reach = g.reachable_from(T.succ_by_label(n, lab))
@@ -470,6 +470,16 @@ def check_raise_and_body(P, R, rid):
                   and second.id == f.params[2] if len(f.params) > 2 else False)
             if not ok:
                 det = f'lookup order is {short(it)}: the specific class must be tried before the fallback class'
+    if not fors:
+        # the same two lookups written as `errors_map.get(err.__class__) or errors_map.get(except_class)`
+        for x in walk_shallow(f.node):
+            if isinstance(x, ast.BoolOp) and isinstance(x.op, ast.Or) and len(x.values) == 2 and all(
+                    isinstance(v, ast.Call) and call_attr(v) == 'get' and len(v.args) == 1 for v in x.values):
+                first, second = x.values[0].args[0], x.values[1].args[0]
+                ok = (src(first) in ('err.__class__', 'type(err)') and isinstance(second, ast.Name)
+                      and second.id == f.params[2] if len(f.params) > 2 else False)
+                if not ok:
+                    det = f'lookup order is ({short(first)}, {short(second)}): the specific class must be tried before the fallback class'
     R.ob(rid, f, fors[0] if fors else f.node, ok, detail='' if ok else det,
          why='with the fallback first, BodySizeError (413) is shadowed by the generic 400')
     # the lookups use config.errors_map .get(<loop var>)
